@@ -304,7 +304,9 @@ def dlStep (cfg : DynList.Cfg) (hs : List Nat) (s : DynList.St) (sel scr : Bool)
         if isSel ∧ k = "1" ∧ hs.length > 0 ∧ c ≥ hs.length then s!"FAIL cursor {c} beyond the {hs.length} items" else "ok"
       | _, _ => "FAIL operation panicked or unparsable result"
     let changed := isSel && (kv "cmd" fs == some "1")
-    (.dl cfg hs s' (sel || changed) (scr || (!isSel && (kv "cmd" fs == some "1"))), s!"{mc}\t{impl}\t{v}")
+    -- a selection change makes the next draw subject to the visibility oracle, whatever scroll was
+    -- requested BEFORE it; only a scroll requested after the selection change suspends the oracle
+    (.dl cfg hs s' (sel || changed) (if changed then false else (scr || (!isSel && (kv "cmd" fs == some "1")))), s!"{mc}\t{impl}\t{v}")
   match op with
   | ["items", h] =>
     match heights? h with
@@ -314,7 +316,7 @@ def dlStep (cfg : DynList.Cfg) (hs : List Nat) (s : DynList.St) (sel scr : Bool)
     match c.toNat? with
     | some c =>
       let s' := DynList.setCursor s c
-      (.dl cfg hs s' true scr, s!"{dlState s'}\t{impl}\t{if implCursor = some c then "ok" else "FAIL SetCursor did not set the cursor"}")
+      (.dl cfg hs s' true false, s!"{dlState s'}\t{impl}\t{if implCursor = some c then "ok" else "FAIL SetCursor did not set the cursor"}")
     | Option.none => (.dead, bad)
   | ["pending", k] =>
     match k.toInt? with
